@@ -11,6 +11,8 @@ produces `panic` exactly where the Rust code performs a partial operation whose 
 -/
 import ScyllaVerif.Proofs.DecodeRT
 import ScyllaVerif.Proofs.CustomFuel
+import ScyllaVerif.Proofs.C08Nest
+import ScyllaVerif.Proofs.C08HeaderNP
 
 namespace ScyllaVerif.Props.C08
 open ScyllaVerif.C08
@@ -217,6 +219,15 @@ theorem no_panic (f : Features) (cached : Option ResultMeta) (decomp : Option (B
         | some body => exact no_panic_body f cached h body uni
     · exact no_panic_body f cached h h.body uni
 
+/-- The fixed 9-byte header: `parseFrameP` takes the five fields with `Buf::get_u8 / get_u8 / get_i16 / get_u8 /
+get_u32` (each panics when the slice runs short) from the array filled by `read_exact`; it never panics and is
+exactly `parseFrame`, the header parser the pipeline theorems are about. -/
+theorem no_panic_header (bs : Bytes) (site : String) : parseFrameP bs ≠ .panic site :=
+  parseFrameP_np bs site
+
+theorem header_reads_are_parseFrame (bs : Bytes) : parseFrameP bs = liftHdr (parseFrame bs) :=
+  parseFrameP_eq bs
+
 /-- Each primitive reader on its own never panics either (here: the one with an `unwrap`). -/
 theorem no_panic_readUuid (s : St) (site : String) : (readUuid s).1 ≠ .panic site := by
   have := aw_readUuid (A := 1) (B := 0) (Nat.le_refl _) s
@@ -315,6 +326,26 @@ theorem alloc_proportional_lz4 (f : Features) (cached : Option ResultMeta) (ext 
     (uni : List (Bytes × UCls)) :
     (decode f cached (some (lz4Decomp ext)) bs uni).2.alloc ≤ 2 * (256 * bs.length + 64) + 131070 :=
   alloc_proportional_compressed f cached (lz4Decomp ext) 255 64 (lz4Decomp_bounded ext) bs uni
+
+/-! ### depth, measured on what the parsers return
+
+`depth_bounded` below bounds the ghost counter, which mirrors the code's own limit checks.  Independently of any
+counter, the NESTING of every type a parser returns is bounded (`nestTy`): a type nested `n` deep was built by `n`
+nested calls (plus `FrozenType(` wrappers, which the limit counts too), and everything downstream — `type_check`,
+typed value decoding (`Model/C08Value.lean` recurses structurally on the type) — recurses on the type. -/
+
+/-- A custom type string yields a type nested at most 128 deep, whatever the string and the class table. -/
+theorem custom_type_nesting_bounded (uni : List (Bytes × UCls)) (s : Bytes) (t : Ty)
+    (h : customParse uni s = .ok t) : nestTy t ≤ 128 :=
+  customParse_nest uni s t h
+
+/-- A column type read from a frame (`deser_type_*` at depth 0) is nested at most 129 + 128 deep, for ALL bytes. -/
+theorem column_type_nesting_bounded (s : St) (t : Ty) (s' : St) (h : deserTypeTop s = (.ok t, s')) :
+    nestTy t ≤ 257 :=
+  deserTypeTop_nest s t s' h
+
+/-- Non-vacuity: `list<map<int, set<text>>>` has nesting 4. -/
+example : nestTy (.list false (.map false (.native .int) (.set false (.native .text)))) = 4 := by decide
 
 /-- Recursion depth is bounded by a constant, whatever the bytes are: at most 129 nested binary type
 descriptions (depth 0..128) plus 128 nested `do_parse` calls of the custom type string parser. -/
